@@ -69,7 +69,7 @@ func iterOps(n int, rev bool, fullN int) []Op {
 		for m := 0; m < 1<<uint(n); m++ {
 			preds = append(preds, m)
 		}
-	} else {
+	} else if n <= 8 {
 		preds = append(preds, 0, (1<<uint(n))-1)
 		for j := 0; j < n; j++ {
 			preds = append(preds, 1<<uint(j))
@@ -78,6 +78,15 @@ func iterOps(n int, rev bool, fullN int) []Op {
 		for j := 1; j < n-1; j++ {
 			preds = append(preds, 1|1<<uint(j), 1<<uint(n-1)|1<<uint(j))
 		}
+	} else {
+		// large sequences (deep trees): cursor movement is what varies, the predicate family is
+		// reduced to never / always / first / last / middle / two mixed pairs / every third
+		mid := n / 2
+		third := 0
+		for j := 0; j < n; j += 3 {
+			third |= 1 << uint(j)
+		}
+		preds = append(preds, 0, (1<<uint(n))-1, 1, 1<<uint(n-1), 1<<uint(mid), 1|1<<uint(mid), 1<<uint(n-1)|1<<uint(mid), third)
 	}
 	for _, m := range preds {
 		ops = append(ops, op("NextTo", m))
